@@ -80,13 +80,17 @@ def r3(ctx, prog):
         ctx.broke("C09.R3: fewer than 4 publication sites (%d)" % n)
     f = prog.fn("_mi_arena_segment_mark_abandoned")
     d = f.param_id(0)
-    pubs = [c for c in f.calls("_mi_bitmap_claim")] + [c for c in f.calls("mi_arena_segment_os_mark_abandoned")]
+    # the OS-list publication: the push onto subproc->abandoned_os_list(_tail), done here or in a private helper
+    def pushes(h_):
+        return [a for a, l, rhs, op in h_.stores() if rl.field_is(h_, l, "abandoned_os_list_tail")]
+    pubs = [c for c in f.calls("_mi_bitmap_claim")] + [c for c in f.calls() if f.nodes[c].get("callee") in prog.fns and f.nodes[c]["callee"] != f.name and
+                                                      prog.fns[f.nodes[c]["callee"]].d.get("static") and pushes(prog.fns[f.nodes[c]["callee"]])] + pushes(f)
     ctx.check(R, len(pubs) >= 2, f.where(), "both publication mechanisms present (bitmap claim, OS list push)", key="C09.R3:mark:mech")
     for c in pubs:
         w = rl.precedes(f, rl.atomic_store_to(f, "thread_id", min_order=3), c)
         ok = w is None
-        ctx.check(R, ok, f.where(c), "thread_id is stored (release) before %s" % f.nodes[c]["callee"], key="C09.R3:mark:order", witness=w)
-        if f.nodes[c]["callee"] == "_mi_bitmap_claim":
+        ctx.check(R, ok, f.where(c), "thread_id is stored (release) before %s" % f.nodes[c].get("callee", "the list push"), key="C09.R3:mark:order", witness=w)
+        if f.nodes[c].get("callee") == "_mi_bitmap_claim":
             bad = rl.never_after(f, c, d)
             ctx.check(R, not bad, f.where(c), "segment not accessed after the blocks_abandoned bit is set", key="C09.R3:mark:after",
                       witness=[f.loc(b) for b in bad])
@@ -244,7 +248,10 @@ def r8(ctx, prog):
         for u in unlink:
             w = w or cfg.must_pass([cfg.after(u)], cfg.exit_points(), clr)
         ctx.check(R, w is None, f.where(), "after unlinking, segment->%s = NULL on every path to the return" % fld, key="C09.R8:%s" % fld, witness=w)
-    g = prog.fn("mi_arena_segment_os_mark_abandoned")
+    g = next((h_ for h_ in prog.fns.values() if any(rl.field_is(h_, l, "abandoned_os_list_tail") and rhs is not None and h_.cv(rhs) is None for a, l, rhs, op in h_.stores())
+              and any(rl.field_is(h_, l, "abandoned_os_prev") for a, l, rhs, op in h_.stores())), None)
+    if g is None:
+        raise AnalysisBroken("C09.R8: the function that pushes a segment on the abandoned OS list was not found")
     ok = any(rl.field_is(g, l, "abandoned_os_prev") for a, l, rhs, op in g.stores()) and any(rl.field_is(g, l, "abandoned_os_next") for a, l, rhs, op in g.stores())
     ctx.check(R, ok, g.where(), "marking sets both links", key="C09.R8:mark")
     ctx.floor(R, 5)
